@@ -14,7 +14,7 @@ def oracle(c, src, impl, model):
     r = c.model.ask('oracle pcap ' + sh_hex(impl['file']))
     if not r.startswith('ok'):
         c.violation('pcap-malformed', 'Spec.pcapWellFormed is false on the file written by the implementation: ' + r,
-                    dict(src=src.decode('utf-8', 'replace')))
+                    dict(src=src.decode('utf-8', 'replace'), over_stale_output=CUR['stale']))
         return
     parts = r.split(' ')
     recs = [tuple(int(x) for x in e.split(':')) for e in parts[2].split(',')] if len(parts) > 2 and parts[2] else []
@@ -27,8 +27,18 @@ def oracle(c, src, impl, model):
     return recs
 
 
+STALE = [None]
+CUR = dict(stale=False)
+
 def one(c, src, tag, files=None):
-    impl, model = progdiff.run_both(c, src, files)
+    # every third case is compiled over an output path that already holds an older, longer file (the previous
+    # successful output followed by 4 KiB): "exactly the emitted packets, nothing trailing" has to hold there too
+    prefill = None
+    if STALE[0] is not None and c.evaluations % 3 == 2:
+        prefill = STALE[0] + b'\xa5' * 4096; c.count('over-stale-output')
+    CUR['stale'] = prefill is not None
+    impl, model = progdiff.run_both(c, src, files, prefill=prefill)
+    if impl['outcome'][0] == 'success' and impl['file'] and len(impl['file']) > 24 and prefill is None: STALE[0] = impl['file']
     progdiff.compare(c, src, impl, model)
     recs = oracle(c, src, impl, model)
     key = None
@@ -99,4 +109,7 @@ def campaign(c):
 
 def replay(c, data):
     src = data['replay']['src'].encode() if 'replay' in data else data['disagreements'][0]['request']['src'].encode()
+    if data.get('replay', {}).get('over_stale_output'):
+        STALE[0] = b'\xd4\xc3\xb2\xa1' + b'\x5a' * 9000
+        c.evaluations = 2
     one(c, src, 'replay')
